@@ -25,6 +25,7 @@ def symlinks_for(ws: dict) -> list:
     return [["l%d" % i, "w/d%d" % i] for i in range(len(ws["roots"]))]
 
 
+HANDLER_KINDS = ["function", "partial", "falsy_list", "falsy_obj", "falsy_list"]
 UNORDERED_KINDS = ["list", "list", "list", "tuple", "set", "frozenset", "gen", "iter", "keys", "deque"]
 ORDERED_KINDS = ["list", "list", "list", "tuple", "gen", "iter", "keys", "deque"]
 
@@ -37,6 +38,8 @@ def rn_op(rng: random.Random, uni: Universe, ri: int, look: list[int], **kw) -> 
           "cwd": rng.choice(["", "w", uni.roots[rng.randrange(nroots)]["dir"]])}
     if rng.random() < 0.3:
         op["lk_kind"] = rng.choice(UNORDERED_KINDS)
+    if rng.random() < 0.35:
+        op["handler_kind"] = rng.choice(HANDLER_KINDS)
     op.update(kw)
     return op
 
@@ -63,6 +66,8 @@ def rf_op(rng: random.Random, uni: Universe, targets: list[str], look: list[int]
         op["files_kind"] = rng.choice(UNORDERED_KINDS)
     if rng.random() < 0.3:
         op["roots_kind"] = rng.choice(ORDERED_KINDS)
+    if rng.random() < 0.35:
+        op["handler_kind"] = rng.choice(HANDLER_KINDS)
     op.update(kw)
     return op
 
